@@ -478,7 +478,53 @@ def check_tables_per_symbol(repo, rep):
     rep.floor(rid, 3)
 
 
+LEDGER_FIELDS = {"stop_orders_sum", "limit_orders_sum", "assets", "available_assets"}
+LEDGER_OWNERS = ("jesse/models/SpotExchange.py", "jesse/models/FuturesExchange.py", "jesse/models/Exchange.py")
+
+
+def check_ledger_writers(repo, rep):
+    """only the exchange model posts to its ledgers: the reference cash account is fed with submissions, cancellations and fills -
+    a reset or adjustment made from elsewhere (the position, the store, a strategy helper) has no counterpart in it"""
+    import ast as _ast
+    rid = "C04-R11"
+    rep.rule(rid, "who may write the spot ledgers: every store into `<x>.assets[..]`, `<x>.stop_orders_sum[..]`, `<x>.limit_orders_sum[..]` "
+                  "(assignment, augmented assignment, mutating call, rebinding of the table) sits in the exchange models themselves")
+    n_mod = n_own = 0
+    MUT = {"update", "pop", "clear", "setdefault", "popitem", "__setitem__"}
+    for rel, mod in sorted(repo.modules.items()):
+        if not rel.startswith("jesse/") or rel.startswith(("jesse/strategies/", "jesse/static/")) or "/tests/" in rel:
+            continue
+        n_mod += 1
+        for node in _ast.walk(mod.tree):
+            hits = []
+            tgts = node.targets if isinstance(node, _ast.Assign) else [node.target] if isinstance(node, (_ast.AugAssign, _ast.AnnAssign)) else []
+            for t in tgts:
+                for tt in (t.elts if isinstance(t, (_ast.Tuple, _ast.List)) else [t]):
+                    b = tt
+                    while isinstance(b, _ast.Subscript):
+                        b = b.value
+                    if isinstance(b, _ast.Attribute) and b.attr in LEDGER_FIELDS and (isinstance(tt, _ast.Subscript) or not (isinstance(b.value, _ast.Name) and b.value.id == "self")):
+                        hits.append(b.attr)
+            if isinstance(node, _ast.Call) and isinstance(node.func, _ast.Attribute) and node.func.attr in MUT:
+                b = node.func.value
+                while isinstance(b, _ast.Subscript):
+                    b = b.value
+                if isinstance(b, _ast.Attribute) and b.attr in LEDGER_FIELDS:
+                    hits.append(b.attr)
+            for h in hits:
+                if rel in LEDGER_OWNERS:
+                    n_own += 1
+                else:
+                    rep.violation(rid, f"{rel}|{h}", f"{rel}: `{norm(node)[:100]}` writes the exchange ledger `{h}` from outside the exchange model: the cash account has no such posting")
+        rep.instance(rid, rel, None)
+    rep.extra["ledger_writes_in_exchange_models"] = n_own
+    if n_own < 8:
+        raise AnalysisError(f"C04-R11: only {n_own} ledger writes found inside the exchange models (the recogniser lost them)")
+    rep.floor(rid, 50)
+
+
 def run(repo: Repo, rep, tier: str):
+    rep.guarded(check_ledger_writers, repo, rep)
     rep.guarded(check_tables_per_symbol, repo, rep)
     from vlib import memo
     rep.guarded(memo.check, repo, rep, "C04-R9", [(SPOT, "SpotExchange")], "spot ledger")
